@@ -29,3 +29,71 @@ Theorem C03_strict_emit_nonvacuous :
   (core_doc ex_core = true /\ strict_safe_doc ex_core = true /\ strict_profile (emit sp_ascii ex_core) = true) /\
   (dfront ex_wide = None /\ strict_safe_doc ex_wide = true /\ strict_profile (emit sp_ascii ex_wide) = true).
 Proof. exact (conj ex_core_ok ex_wide_ok). Qed.
+
+(* the grammar sentinel is tried exactly at the end of the leading blank lines (Lexer.init_state is written against this text) *)
+Theorem C03_pin_lexer_sentinel :
+  lexer_sentinel_guard = pinned_lexer_sentinel_guard /\ lexer_sentinel_pos = pinned_lexer_sentinel_pos /\
+  lexer_leading_blank_pattern = pinned_lexer_leading_blank_pattern.
+Proof. exact (conj pin_lexer_sentinel_guard (conj pin_lexer_sentinel_pos pin_lexer_leading_blank_pattern)). Qed.
+
+(* ---- LENIENT LAYOUTS CONVERGE (parser half, every depth / list length) ------------------------------------------------
+   A layout `lay` fixes, for a core2 document d (comments, scalar lists, sections, blocks, META), the indentation count of
+   every line, the number of blank lines after every line, the NEWLINE / INDENT / COMMENT runs inside list brackets, leading
+   blank lines and whether ===END=== is written.  layout_ok is the class in which indentation still expresses the same
+   structure (children deeper than their header, siblings at least at the first child's indent, dedent after a nested body).
+   Any two token lists that spell d in two layouts of the class are read as the SAME document, so every canonicaliser
+   `canon` gives identical bytes; the canonical emitter layout is one member of the class. *)
+From OV Require Import Lex.Lexer Syn.Parser Rt.TokRound2 Rt.TokRound2Ex Rt.TokLenient Rt.TokLenientEx.
+Theorem C03_lenient_layouts_converge :
+  forall numcanon holo_ok strict sp alpha idnum d lay1 lay2,
+    core2_doc_l d = true -> nums_ok2_l numcanon idnum (dsections d) -> Forall (field_num_ok numcanon) (dmeta d) ->
+    layout_ok lay1 d = true -> layout_ok lay2 d = true ->
+    forall st1 ts1 tail1 st2 ts2 tail2,
+      pbdepth st1 = 0%N -> Forall2 tmatch ts1 (doc2_sh_len idnum lay1 d) -> ptoks st1 = ts1 ++ tail1 ->
+      pbdepth st2 = 0%N -> Forall2 tmatch ts2 (doc2_sh_len idnum lay2 d) -> ptoks st2 = ts2 ++ tail2 ->
+      exists st1' st2',
+        parse_document numcanon holo_ok strict sp alpha st1 = POk d st1' /\
+        parse_document numcanon holo_ok strict sp alpha st2 = POk d st2' /\ wext2 st1 st1' /\ wext2 st2 st2'.
+Proof. exact lenient_layouts_converge. Qed.
+
+Theorem C03_lenient_layouts_same_canonical :
+  forall numcanon holo_ok strict sp alpha idnum (canon : doc -> str) d lay1 lay2,
+    core2_doc_l d = true -> nums_ok2_l numcanon idnum (dsections d) -> Forall (field_num_ok numcanon) (dmeta d) ->
+    layout_ok lay1 d = true -> layout_ok lay2 d = true ->
+    forall st1 ts1 tail1 st2 ts2 tail2,
+      pbdepth st1 = 0%N -> Forall2 tmatch ts1 (doc2_sh_len idnum lay1 d) -> ptoks st1 = ts1 ++ tail1 ->
+      pbdepth st2 = 0%N -> Forall2 tmatch ts2 (doc2_sh_len idnum lay2 d) -> ptoks st2 = ts2 ++ tail2 ->
+      forall d1 d2 s1 s2,
+        parse_document numcanon holo_ok strict sp alpha st1 = POk d1 s1 ->
+        parse_document numcanon holo_ok strict sp alpha st2 = POk d2 s2 -> canon d1 = canon d2.
+Proof. exact lenient_layouts_same_canonical. Qed.
+
+(* the emitter's own layout is in the class, and its shape is the canonical shape of C02 *)
+Theorem C03_canonical_layout_in_class :
+  forall ml idnum d, (core2_doc d = true -> layout_ok (canonical_lay ml d) d = true) /\
+                     doc2_sh_len idnum (canonical_lay ml d) d = doc2_sh ml idnum d.
+Proof. exact (fun ml idnum d => conj (layout_ok_canonical ml d) (doc2_sh_len_canonical ml idnum d)). Qed.
+
+(* text level, checked form: whenever the model lexer reads a text as a token list of the shape of d in a layout of the
+   class, the whole reader returns d (with exactly the lexer's receipts and only advisory warnings) *)
+Theorem C03_text_lenient_checked :
+  forall cls numcanon holo_ok strict idnum d lay text ts tail reps,
+    core2_doc_l d = true -> nums_ok2_l numcanon idnum (dsections d) -> Forall (field_num_ok numcanon) (dmeta d) ->
+    layout_ok lay d = true ->
+    strip_frontmatter (u_space cls) (LexLinkBase.lines_of text) = (LexLinkBase.lines_of text, None) ->
+    tokenize cls false (LexLinkBase.lines_of text) = LexOk (ts ++ tail) reps ->
+    TokRoundEx.all2 TokRoundEx.tmatchb ts (doc2_sh_len idnum lay d) = true ->
+    exists warns, parse_model cls numcanon holo_ok strict (LexLinkBase.lines_of text) = PRDoc d reps warns /\ Forall advisory warns.
+Proof. exact text_lenient_checked. Qed.
+
+(* outside the class indentation MEANS something else (a dedented child leaves its body ...): the statement without layout_ok is false *)
+Definition C03_lenient_layouts_full : Prop := parse_core2_doc_len_full.
+Theorem C03_lenient_layouts_full_refuted : ~ parse_core2_doc_len_full.
+Proof. exact parse_core2_doc_len_full_refuted. Qed.
+
+(* non-vacuity: two hand-written lenient texts (blank lines, odd indents, lists over several lines with comments inside the brackets,
+   no ===END===) are in the class, lex to the layout shape and are read as the document *)
+Theorem C03_lenient_nonvacuous :
+  layout_ok len_lay len_doc = true /\ layout_ok len2_lay len2_doc = true /\
+  parse_model TokRoundEx.ex_cls ex2_numcanon (fun _ => false) true (LexLinkBase.lines_of len2_text) = PRDoc len2_doc [] [].
+Proof. exact (conj len_layout_ok (conj len2_layout_ok len2_parses)). Qed.
